@@ -288,6 +288,7 @@ func (c *ClientConn) Receive(reader io.Reader) error {
 			return errors.New("invalid stream")
 		}
 		atomic.AddInt32(&c.inflight, -1)
+		verifAt("clientconn.receive.dispatch", c, request, raw)
 
 		handled := false
 
@@ -380,6 +381,7 @@ func (c *ClientConn) maybeCachePrepared(request Request, raw *frame.RawFrame) {
 func (c *ClientConn) Closing(err error) {
 	c.closingMu.Lock()
 	c.closing = true
+	verifAt("clientconn.closing.flagged", c)
 	c.pending.closing(err)
 	c.closingMu.Unlock()
 }
@@ -403,6 +405,7 @@ func (c *ClientConn) Send(request Request) error {
 		return err
 	}
 
+	verifAt("clientconn.send.registered", c, request, stream)
 	err = c.conn.Write(&requestSender{
 		request: request,
 		stream:  stream,
@@ -494,9 +497,11 @@ func (r *requestSender) Send(writer io.Writer) error {
 	switch frm := r.request.Frame().(type) {
 	case *frame.Frame:
 		frm.Header.StreamId = r.stream
+		verifAt("requestsender.stream.set", r.conn, frm.Header, r.stream)
 		return r.conn.codec.EncodeFrame(frm, writer)
 	case *frame.RawFrame:
 		frm.Header.StreamId = r.stream
+		verifAt("requestsender.stream.set", r.conn, frm.Header, r.stream)
 		return r.conn.codec.EncodeRawFrame(frm, writer)
 	default:
 		return errors.New("unhandled frame type")
